@@ -508,9 +508,12 @@ async def _impl_monitor(interval, tol, stop, events, horizon):
     t0 = loop.time()
     m = HeartbeatMonitor('verif', interval * UNIT, tripped, stop_when_no_activity=stop, tolerate_missed_heartbeats=tol)
     try:
-        for t, _ev in events:
+        for t, ev in events:
             await until(t0 + t * UNIT)
-            m.ping()
+            if ev.startswith('block:'):       # the event loop is held up (see the module docstring); pings stamped inside are made at its end
+                loop.hold(t0 + (t + int(ev[6:])) * UNIT)
+            else:
+                m.ping()
         await until(t0 + horizon * UNIT)
         await turns(3)
         return {'trips': [grid(x, t0) for x in trips], 'running': bool(m.is_running())}
@@ -532,6 +535,9 @@ def impl_monitor(mcase):
 
 
 def monitor_request(mcase):
+    """`mon.run` request; None for a case with hold-ups (bare monitors under a blocked loop: property oracle only)"""
+    if blocks_of(mcase):
+        return None
     out, now = [], 0
     for t, _ev in mcase['events']:
         if t > now:
